@@ -125,5 +125,9 @@ theorem eval_denote (doc : J N) (e : Expr) (hw : wellTyped ops rx doc e = true) 
   | not a ih =>
     simp only [wellTyped] at hw
     simp [Expr.ast, eval, ih hw, evaluateOperation, denote]
+  | group a ih =>
+    simp only [wellTyped] at hw
+    simp only [Expr.ast, denote]
+    exact ih hw
 
 end Syzgy.Query
